@@ -230,6 +230,10 @@ def shared(ctx):
     from rules.engine import core
     from rules.props import c07
     core.import_rules(ctx, [c07.r1_header_map, c07.r6_stake_commitment], "X07")
+    # `tips` is the one field no header records (recorded finding D5: what a seal(None) leaves in it is lost by from_block).  The finding is delimited by who can put
+    # something there: only the fee split of accepted transactions.  A new writer of tips (or of fee_pool outside the fee stages) widens what a restart loses.
+    from rules.props import c01
+    core.import_rules(ctx, [c01.r5_issuance_confinement], "X01")
 
 
 RULES = [r1_reconstruction_map, r2_constant_fields_invariant, r3_pairing, shared]
